@@ -21,6 +21,7 @@ import (
 	"encoding/binary"
 	"fmt"
 	"io"
+	"net"
 	"os"
 	"sync"
 	"sync/atomic"
@@ -54,6 +55,11 @@ type c18Recv struct {
 	doneOnce  sync.Once
 	calls     int
 	maxWindow int
+	// bidirectional family: per-callback processing time and acknowledgements written back from the callback
+	sleep    time.Duration
+	ackEvery int
+	acksSent int
+	ackErr   error
 }
 
 func (c *c18Recv) failf(format string, a ...interface{}) {
@@ -130,8 +136,18 @@ func (c *c18Recv) onEventData(buf []byte, conn eventConn) error {
 	conn.commitRead(k)
 	c.consumed += int64(k)
 	c.prevLeft = len(buf) - k
+	if c.ackEvery > 0 && c.calls%c.ackEvery == 1%c.ackEvery {
+		if err := conn.write(c18Ack); err != nil {
+			c.ackErr = err
+		} else {
+			c.acksSent++
+		}
+	}
 	if total > 0 && c.consumed >= total {
 		c.doneOnce.Do(func() { close(c.done) })
+	}
+	if c.sleep > 0 {
+		time.Sleep(c.sleep)
 	}
 	return nil
 }
@@ -164,6 +180,19 @@ type c18Case struct {
 	Oracle  []c18Fail `json:"oracle"`
 	Feat    []string  `json:"feat"`
 	InitLen int       `json:"init_len"`
+	Disp    []c18Disp `json:"disp,omitempty"`      // kind dispatch
+	Net     string    `json:"net,omitempty"`       // kind bidir: unix | tcp
+	Parked  int64     `json:"parked_at,omitempty"` // kind bidir: bytes accepted when the writer stopped making progress
+	Acks    int       `json:"acks,omitempty"`      // kind bidir: acknowledgements sent back by the consumer
+}
+
+type c18Disp struct {
+	Rdhup    bool `json:"rdhup"`
+	In       bool `json:"in"`
+	Out      bool `json:"out"`
+	RanClose bool `json:"ran_close"`
+	RanRead  bool `json:"ran_read"`
+	RanWrite bool `json:"ran_write"`
 }
 
 func c18Pair(snd, rcv int) (a, b *os.File, err error) {
@@ -554,16 +583,280 @@ func c18Concurrent(id int, r *vrand) (*c18Case, error) {
 var c18Stalls int32
 
 func c18Patience() time.Duration {
-	if atomic.LoadInt32(&c18Stalls) >= 1 {
+	switch n := atomic.LoadInt32(&c18Stalls); {
+	case n >= 2:
 		return 2 * time.Second
+	case n == 1:
+		return 6 * time.Second
 	}
-	return 30 * time.Second
+	return 20 * time.Second
+}
+
+// ---------------------------------------------------------------------------------------------
+// handleEvent dispatch: which handlers run for every combination of EPOLLRDHUP / EPOLLIN / EPOLLOUT
+// ---------------------------------------------------------------------------------------------
+
+type c18DispCb struct{ read, closed bool }
+
+func (c *c18DispCb) onEventData(buf []byte, conn eventConn) error {
+	c.read = true
+	conn.commitRead(len(buf))
+	return nil
+}
+func (c *c18DispCb) onRemoteClose() { c.closed = true }
+func (c *c18DispCb) onLocalClose()  {}
+
+func c18Dispatch(id int) (*c18Case, error) {
+	c := &c18Case{ID: id, Kind: "dispatch"}
+	ensureDefaultDispatcherInit()
+	d, ok := defaultDispatcher.(*epollDispatcher)
+	if !ok {
+		return nil, fmt.Errorf("default dispatcher is not the epoll dispatcher")
+	}
+	for mask := 1; mask < 8; mask++ {
+		a, b, err := c18Pair(0, 0)
+		if err != nil {
+			return nil, err
+		}
+		h := d.newConnection(a).(*connEventHandler)
+		syscall.SetNonblock(h.fd, true) // not registered with epoll: the handlers are called directly below
+		cb := &c18DispCb{}
+		h.callback = cb
+		x := c18Disp{Rdhup: mask&4 != 0, In: mask&2 != 0, Out: mask&1 != 0}
+		events := 0
+		if x.Rdhup {
+			events |= syscall.EPOLLRDHUP
+		}
+		if x.In {
+			events |= syscall.EPOLLIN
+		}
+		if x.Out {
+			events |= syscall.EPOLLOUT
+		}
+		h.handleEvent(events, d)
+		x.RanClose, x.RanRead = cb.closed, cb.read
+		if !cb.closed { // onWriteReady leaves a value in the channel a writer would be waiting on
+			select {
+			case <-h.onWriteReadyCh:
+				x.RanWrite = true
+			default:
+			}
+		}
+		c.Disp = append(c.Disp, x)
+		// oracle: a write-ready report is never dropped, whatever else the event carries
+		if x.Out && !x.Rdhup && !x.RanWrite {
+			c.Oracle = append(c.Oracle, c18Fail{"C18: write-ready notification dropped by handleEvent",
+				fmt.Sprintf("an epoll event with EPOLLOUT (rdhup=%v in=%v) did not notify onWriteReadyCh: a writer parked after EAGAIN would sleep forever", x.Rdhup, x.In)})
+		}
+		if x.In && !x.Rdhup && !x.RanRead {
+			c.Oracle = append(c.Oracle, c18Fail{"C18: read-ready notification dropped by handleEvent",
+				fmt.Sprintf("an epoll event with EPOLLIN (out=%v) did not run onReadReady", x.Out)})
+		}
+		if !cb.closed {
+			h.close() // (after onRemoteClose the handler has closed itself)
+		}
+		b.Close()
+	}
+	if len(c.Oracle) > 0 {
+		atomic.AddInt32(&c18Stalls, 1) // the transfers below are expected to stall: do not wait long for each
+	}
+	c.Feat = []string{"dispatch-all-event-masks"}
+	return c, nil
+}
+
+// ---------------------------------------------------------------------------------------------
+// bidirectional: a writer parked on EAGAIN, acknowledgements flowing the other way, a slow consumer
+// ---------------------------------------------------------------------------------------------
+
+type c18AckCb struct {
+	mu  sync.Mutex
+	got []byte
+}
+
+func (n *c18AckCb) onEventData(buf []byte, conn eventConn) error {
+	n.mu.Lock()
+	n.got = append(n.got, buf...)
+	n.mu.Unlock()
+	conn.commitRead(len(buf))
+	return nil
+}
+func (n *c18AckCb) onRemoteClose() {}
+func (n *c18AckCb) onLocalClose()  {}
+
+func c18TCPPair() (fa, fb *os.File, err error) {
+	ln, err := net.Listen("tcp", "127.0.0.1:0")
+	if err != nil {
+		return nil, nil, err
+	}
+	defer ln.Close()
+	type res struct {
+		c   net.Conn
+		err error
+	}
+	ch := make(chan res, 1)
+	go func() {
+		c, err := ln.Accept()
+		ch <- res{c, err}
+	}()
+	c1, err := net.Dial("tcp", ln.Addr().String())
+	if err != nil {
+		return nil, nil, err
+	}
+	r := <-ch
+	if r.err != nil {
+		return nil, nil, r.err
+	}
+	fa, err = getConnDupFd(c1)
+	c1.Close()
+	if err != nil {
+		return nil, nil, err
+	}
+	fb, err = getConnDupFd(r.c)
+	r.c.Close()
+	return fa, fb, err
+}
+
+var c18Ack = []byte("ack")
+
+// `a` writes a multi-MiB stream while `b` is not registered yet, so a.write parks on EAGAIN; then b starts to
+// consume, slowly (a few ms per callback), and sends acknowledgements back: a's fd becomes readable and writable
+// while the dispatcher goroutine is busy, i.e. in ONE edge-triggered epoll event.
+func c18Bidir(id int, r *vrand, network string) (*c18Case, error) {
+	c := &c18Case{ID: id, Kind: "bidir", Net: network, Policy: c18Policy{Kind: "all"}}
+	var fa, fb *os.File
+	var err error
+	if network == "tcp" {
+		fa, fb, err = c18TCPPair()
+	} else {
+		c.SndBuf = r.pick([]int{0, 65536, 16384})
+		fa, fb, err = c18Pair(c.SndBuf, 0)
+	}
+	if err != nil {
+		return nil, err
+	}
+	ensureDefaultDispatcherInit()
+	a := defaultDispatcher.newConnection(fa)
+	b := defaultDispatcher.newConnection(fb)
+	c.InitLen = len(b.(*connEventHandler).readBuffer)
+	c.Total = int64(3<<20 + r.intn(2<<20))
+	if network == "tcp" { // loopback TCP buffers several MiB before the writer sees EAGAIN
+		c.Total += 6 << 20
+	}
+	chunk := r.pick([]int{16 << 10, 64 << 10, 5000})
+	c.Sizes = []int{chunk}
+	seed := r.u64()
+	rc := &c18Recv{seed: seed, pol: c.Policy, r: newVrand(r.u64()), done: make(chan struct{}),
+		sleep: time.Duration(1+r.intn(4)) * time.Millisecond, ackEvery: 1 + r.intn(8)}
+	atomic.StoreInt64(&rc.total, c.Total)
+	acks := &c18AckCb{}
+	if err := a.setCallback(acks); err != nil {
+		return nil, err
+	}
+	var sent int64
+	werr := make(chan error, 1)
+	go func() {
+		buf := make([]byte, chunk)
+		for off := int64(0); off < c.Total; {
+			n := int64(len(buf))
+			if c.Total-off < n {
+				n = c.Total - off
+			}
+			for i := int64(0); i < n; i++ {
+				buf[i] = c18Byte(seed, off+i)
+			}
+			if err := a.write(buf[:n]); err != nil {
+				werr <- err
+				return
+			}
+			off += n
+			atomic.StoreInt64(&sent, off)
+		}
+		werr <- nil
+	}()
+	// wait until the kernel buffers are full and the writer has stopped making progress
+	for last, stable, tries := int64(-1), 0, 0; stable < 4 && tries < 400; tries++ {
+		time.Sleep(15 * time.Millisecond)
+		if cur := atomic.LoadInt64(&sent); cur == last {
+			stable++
+		} else {
+			last, stable = cur, 0
+		}
+	}
+	c.Parked = atomic.LoadInt64(&sent)
+	if err := b.setCallback(rc); err != nil {
+		return nil, err
+	}
+	var wres error
+	finished := false
+	select {
+	case wres = <-werr:
+		finished = true
+	case <-time.After(c18Patience()):
+	}
+	if finished {
+		select {
+		case <-rc.done:
+		case <-time.After(c18Patience()):
+			rc.mu.Lock()
+			rc.failf("C18: bytes written never reached the callback|%d of %d bytes consumed when the harness gave up", rc.consumed, c.Total)
+			rc.mu.Unlock()
+		}
+	}
+	time.Sleep(5 * time.Millisecond)
+	rc.mu.Lock()
+	if !finished {
+		rc.failf("C18: write blocked forever after EAGAIN|the writer parked after %d accepted bytes and was not resumed although the peer consumed: %d of %d bytes accepted, %d delivered to the peer's callback, %d acknowledgements sent back",
+			c.Parked, atomic.LoadInt64(&sent), c.Total, rc.consumed, rc.acksSent)
+	} else if wres != nil {
+		rc.failf("C18: a writer got an error|%v", wres)
+	} else if rc.consumed != c.Total && len(rc.fail) == 0 {
+		rc.failf("C18: bytes consumed differ from bytes written|%d vs %d", rc.consumed, c.Total)
+	}
+	c.Acks = rc.acksSent
+	if rc.ackErr != nil {
+		rc.failf("C18: a writer got an error|acknowledgement write: %v", rc.ackErr)
+	}
+	c.Cbs = rc.Cbs
+	c.Trunc = rc.calls > len(rc.Cbs)
+	want := rc.acksSent * len(c18Ack)
+	rc.mu.Unlock()
+	if finished {
+		// the acknowledgements arrive at a's callback exactly once
+		for i := 0; i < 200; i++ {
+			acks.mu.Lock()
+			n := len(acks.got)
+			acks.mu.Unlock()
+			if n >= want {
+				break
+			}
+			time.Sleep(5 * time.Millisecond)
+		}
+		acks.mu.Lock()
+		if len(acks.got) != want {
+			rc.mu.Lock()
+			rc.failf("C18: acknowledgement bytes differ from those written|%d received, %d written", len(acks.got), want)
+			rc.mu.Unlock()
+		}
+		acks.mu.Unlock()
+	}
+	rc.mu.Lock()
+	c18AddFail(c, rc.fail)
+	rc.mu.Unlock()
+	a.close() // a writer that is still parked returns EPIPE
+	b.close()
+	if !finished {
+		<-werr
+	}
+	c18Features(c)
+	c.Feat = append(c.Feat, "bidirectional", "writer-parked-on-EAGAIN")
+	return c, nil
 }
 
 func TestVerif_C18(t *testing.T) {
 	seed := uint64(venvInt("VERIF_SEED", 1))
 	n := venvInt("VERIF_N", 60)
 	nbig := venvInt("VERIF_NBIG", 2)
+	nbidir := venvInt("VERIF_NBIDIR", 3)
 	out := vopenOut(t)
 	defer out.close()
 	r := newVrand(seed)
@@ -572,7 +865,11 @@ func TestVerif_C18(t *testing.T) {
 		var c *c18Case
 		var err error
 		switch {
-		case i < nbig:
+		case i == 0:
+			c, err = c18Dispatch(id)
+		case i >= 1 && i <= nbidir:
+			c, err = c18Bidir(id, r, []string{"unix", "tcp", "unix"}[(i-1)%3])
+		case i < nbidir+1+nbig:
 			c, err = c18Stream(id, r, true)
 		case i%5 == 4:
 			c, err = c18Concurrent(id, r)
@@ -583,7 +880,8 @@ func TestVerif_C18(t *testing.T) {
 			t.Fatalf("case %d: %v", id, err)
 		}
 		for _, f := range c.Oracle {
-			if len(f.Sig) > 0 && (f.Sig == "C18: bytes written never reached the callback" || f.Sig == "C18: events written never reached the callback") {
+			if f.Sig == "C18: bytes written never reached the callback" || f.Sig == "C18: events written never reached the callback" ||
+				f.Sig == "C18: write blocked forever after EAGAIN" {
 				atomic.AddInt32(&c18Stalls, 1)
 			}
 		}
